@@ -362,6 +362,8 @@ pub struct Body {
     pub panic: bool,
     /// number of scheduling points opened inside the body (default 1)
     pub yields: Option<usize>,
+    /// async bodies: wake the operation's own waker during the poll (the wake-up arrives while running)
+    pub self_wake: bool,
 }
 
 impl Body {
@@ -421,12 +423,27 @@ impl Drop for AsyncSpan {
     }
 }
 
+/// Wakes the polling context's waker once, during the poll, and completes
+struct SelfWake;
+impl Future for SelfWake {
+    type Output = ();
+    fn poll(self: Pin<&mut Self>, cx: &mut Context) -> Poll<()> {
+        vthread::yield_now();
+        cx.waker().wake_by_ref();
+        vthread::yield_now();
+        Poll::Ready(())
+    }
+}
+
 async fn run_async(body: Body, rec: Arc<Rec>, op: OpId, st: Arc<ObjState>, name: String) {
     rec.start(op);
     st.enter(&name);
     let mut span = AsyncSpan { rec: rec.clone(), op, st: st.clone(), name: name.clone(), done: false };
     for _ in 0..body.yields.unwrap_or(1) {
         vthread::yield_now();
+    }
+    if body.self_wake {
+        SelfWake.await;
     }
     if let Some(g) = &body.gate {
         g.clone().await;
@@ -894,6 +911,8 @@ pub fn counting_waker() -> (Waker, Arc<AtomicUsize>) {
 
 struct GateInner {
     open: bool,
+    /// clones of every waker ever registered (fired by `fire_stale`, long after they stopped mattering)
+    stale: Vec<Waker>,
     /// every waker ever registered and not yet consumed (stale ones included when `keep_stale`)
     wakers: Vec<Waker>,
     polls: usize,
@@ -906,11 +925,11 @@ pub struct Gate(Arc<StdMutex<GateInner>>, bool);
 
 impl Gate {
     pub fn new() -> Gate {
-        Gate(Arc::new(StdMutex::new(GateInner { open: false, wakers: vec![], polls: 0 })), false)
+        Gate(Arc::new(StdMutex::new(GateInner { open: false, stale: vec![], wakers: vec![], polls: 0 })), false)
     }
     /// A gate that wakes *every* waker registered by earlier polls (stale wakers fire too)
     pub fn new_keep_stale() -> Gate {
-        Gate(Arc::new(StdMutex::new(GateInner { open: false, wakers: vec![], polls: 0 })), true)
+        Gate(Arc::new(StdMutex::new(GateInner { open: false, stale: vec![], wakers: vec![], polls: 0 })), true)
     }
     /// Opens the gate and wakes whoever is registered
     pub fn open(&self) {
@@ -937,6 +956,16 @@ impl Gate {
             w.wake_by_ref();
         }
     }
+    /// Fires every waker this gate has ever been given, including those of operations that have
+    /// long completed (a stale wake-up)
+    pub fn fire_stale(&self) {
+        vthread::yield_now();
+        let ws = { self.0.lock().unwrap().stale.clone() };
+        for w in ws {
+            vthread::yield_now();
+            w.wake_by_ref();
+        }
+    }
     pub fn polls(&self) -> usize {
         self.0.lock().unwrap().polls
     }
@@ -958,6 +987,7 @@ impl Future for Gate {
                 g.wakers.clear();
             }
             g.wakers.push(cx.waker().clone());
+            g.stale.push(cx.waker().clone());
             Poll::Pending
         }
     }
